@@ -310,6 +310,25 @@ def run(ctx):
     eq(ctx, "R4", "Molecule(density=) is the natural density of the labile formula", I.getattr(lab2, "natural_density"), rho, s_mol)
     eq(ctx, "R4", "Molecule(density=): cell volume = mass / density", I.getattr(m2, "cell_volume"),
        sp.Integer(10) ** 24 * M0 / NA / I.getattr(lab2, "density"), s_mol)
-    ctx.floor("R4", 9)
+    # the tables repeat formula strings with different volumes (Glc / Gal / Man, adenosine in both base tables): each molecule
+    # built from the same string keeps its own formula object and its own density
+    COMPOUND_STRINGS["C6H12O6<probe>"] = [lambda tab: I.call(fm, [dict(comp)], {})]
+    try:
+        V1, V2 = sp.symbols("V1 V2", positive=True)
+        mA = I.instantiate(Mol, ["glc", "C6H12O6<probe>"], {"cell_volume": V1}, name="moleculeA", open_attrs=())
+        sldA = I.getattr(mA, "sld")
+        mB = I.instantiate(Mol, ["gal", "C6H12O6<probe>"], {"cell_volume": V2}, name="moleculeB", open_attrs=())
+        labA, labB = I.getattr(mA, "labile_formula"), I.getattr(mB, "labile_formula")
+        ctx.check(labA is not labB, "R4", "two molecules built from the same formula string have formula objects of their own",
+                  "both hold the same Formula object (its density is the one assigned last)", s_mol)
+        eq(ctx, "R4", "first molecule of a repeated formula string: density = mass / its own cell volume, also after the second was built",
+           I.getattr(labA, "density"), sp.Integer(10) ** 24 * M0 / NA / V1, s_mol)
+        eq(ctx, "R4", "second molecule of a repeated formula string: density = mass / its own cell volume",
+           I.getattr(labB, "density"), sp.Integer(10) ** 24 * M0 / NA / V2, s_mol)
+        refA = I.call(nsld, [I.call(I.getattr(labA, "replace"), [H1, H], {})], {})
+        eq(ctx, "R4", "first molecule of a repeated formula string: .sld is still the SLD nsf gives for its formula", sldA, refA[0], s_mol)
+    finally:
+        COMPOUND_STRINGS.pop("C6H12O6<probe>", None)
+    ctx.floor("R4", 13)
     ctx.unit("functions_inlined", len(set(I.calls)))
     ctx.assume("the parser turns 'H2O@0.9982n' / 'D2O@0.9982n' into H2O / D2O at natural density 0.9982 (C01, C12-R2)")
